@@ -432,7 +432,11 @@ class LoaderBase(ABC):
             local_shifts[i] = loc_shift * self.scale
 
         rotator = Rotation.from_quat(local_rot)
-        mole_aligned = self.molecules.linear_transform(local_shifts, rotator)
+        # NOTE: shifts are measured in the frame of the input molecules (the templates are
+        # rotated, not the subvolumes), so they must not be rotated by the found rotation.
+        mole_aligned = self.molecules.translate_internal(
+            local_shifts
+        ).rotate_by_rotvec_internal(rotator.as_rotvec())
 
         mole_aligned.features = self.molecules.features.with_columns(
             _misc.get_feature_list(scores, local_shifts, rotator.as_rotvec()),
@@ -570,7 +574,11 @@ class LoaderBase(ABC):
             local_shifts[i] = loc_shift * self.scale
 
         rotator = Rotation.from_quat(local_rot)
-        mole_aligned = self.molecules.linear_transform(local_shifts, rotator)
+        # NOTE: shifts are measured in the frame of the input molecules (the templates are
+        # rotated, not the subvolumes), so they must not be rotated by the found rotation.
+        mole_aligned = self.molecules.translate_internal(
+            local_shifts
+        ).rotate_by_rotvec_internal(rotator.as_rotvec())
 
         if remainder > 1:
             labels %= remainder  # type: ignore
